@@ -111,7 +111,7 @@ PROPS["C03"] = {
     "explanation": "Deductive obligations on the catalog transformers and the publish order of one compaction; row conservation of the merge itself rests on assumed arrow/parquet kernel contracts (concat_batches, sort_to_indices + take, Parquet encode/decode are value preserving). Crashes, two compactors and lease expiry are covered only through the atomic-swap contract (sources leave the catalog only inside one conditional PUT that requires the registered target) and the lease invariant of C08; interleavings are not explored.",
     "assumptions": [
         "compactor units: acquire_lease success = an exclusive live lease on exactly these chunks (C08); complete_compaction success = exactly the sources left the catalog (catalog units); a failed request leaves the ghost state unchanged (a failed-but-applied swap only leaves garbage, never loses rows); sort_batch and the Parquet writer keep the rows; generate_compacted_path is fresh (uuid)",
-        "ChunkMerger::merge (unit chunk_merger_merge): read_chunk decodes what was encoded; concat_batches pairs columns BY POSITION, so it is only applied to batches that all carry the schema given to it (precondition -- the pre-fix call under the first chunk's schema fails it: F31); align_by_column_name's own contract (one schema for all, each batch's rows unchanged as name -> cell maps, NULL for a column a batch lacks) is ASSUMED -- its text (closures over arrow schemas) is not under contract",
+        "ChunkMerger::merge (unit chunk_merger_merge): read_chunk decodes what was encoded; concat_batches pairs columns BY POSITION, so it is only applied to batches that all carry the schema given to it (precondition -- the pre-fix call under the first chunk's schema fails it: F31); align_by_column_name is a unit too (aligned_ok: one schema with distinct names for all batches, every column of every batch under its own name, NULLs where a batch lacks the column; the closures are lifted, iter_mut().find and the nullability pass are shims); reading aligned_ok row-wise as 'rows unchanged as name -> cell maps' is stated, not mechanised; input batches are assumed to have one column per field",
         "known findings F19 (probe finding_F19_compact_l0) and F20 (probe finding_F20_stale_sources), demonstrated under /verif/findings",
         "arrow concat_batches / sort_to_indices / take and the Parquet writer/reader preserve the multiset of rows",
         "conditional PUT of the catalog object is atomic (ghost store contract of prelude_s3.inc)",
